@@ -12,7 +12,7 @@ from collections import OrderedDict
 from .core import Eq, Fail, Note
 from .ref import KMap, popcount
 
-_REC = {'installed': False, 'funcs': {}, 'codegen_events': 0, 'compile_events': 0, 'py_compile': 0, 'lambdify': 0, 'func_builder': 0}
+_REC = {'installed': False, 'funcs': {}, 'per_key': {}, 'codegen_events': 0, 'compile_events': 0, 'py_compile': 0, 'lambdify': 0, 'func_builder': 0}
 
 
 # --------------------------------------------------------------------------- recorder
@@ -25,7 +25,12 @@ def install_recorder():
     orig_codegen, orig_compile = od.do_codegen, od.do_compile
 
     def do_codegen(codegen, *mvs):
-        out = orig_codegen(codegen, *mvs)
+        out = orig_codegen(codegen, *mvs)       # (a generation that raises produced no function: not counted)
+        try:
+            k = (id(mvs[0].algebra), getattr(codegen, '__name__', str(codegen)), tuple(tuple(m.keys()) for m in mvs))
+            _REC['per_key'][k] = _REC['per_key'].get(k, 0) + 1
+        except Exception:
+            pass
         _REC['codegen_events'] += 1
         try:
             n = out.func.__name__
@@ -36,6 +41,11 @@ def install_recorder():
 
     def do_compile(codegen, *tapes):
         out = orig_compile(codegen, *tapes)
+        try:
+            k = (id(tapes[0].algebra), 'compile:' + getattr(codegen, '__name__', str(codegen)), tuple(tuple(m.keys()) for m in tapes))
+            _REC['per_key'][k] = _REC['per_key'].get(k, 0) + 1
+        except Exception:
+            pass
         _REC['compile_events'] += 1
         try:
             n = out.func.__name__
@@ -75,7 +85,12 @@ def recorder_events():
 
 
 def recorder_counts():
-    return {k: v for k, v in _REC.items() if k not in ('installed', 'funcs')}
+    return {k: v for k, v in _REC.items() if k not in ('installed', 'funcs', 'per_key')}
+
+
+def generated_more_than_once(alg):
+    """(codegen name, key patterns) pairs for which generation SUCCEEDED more than once on this algebra object."""
+    return {k[1:]: n for k, n in _REC['per_key'].items() if k[0] == id(alg) and n > 1}
 
 
 # --------------------------------------------------------------------------- algebras
